@@ -34,6 +34,10 @@ def make_graph(kinds, adj):
             o = [i * 10 + 5]
             nodes.append(o)
             inner.append(o)
+        elif k == 'ulist':
+            o = UList([i * 10 + 5])
+            nodes.append(o)
+            inner.append(o)
         elif k == 'dict':
             o = {'leaf': i * 10 + 5}
             nodes.append(o)
@@ -91,6 +95,14 @@ def reference(kinds, adj, nodes):
                 visit(j, stack | {i})
     visit(0, frozenset())
     return markers, full
+
+
+class UList(list):
+    """a user list subclass (its instances can be given another class later)"""
+
+
+class VList(list):
+    pass
 
 
 class ExplodingError(Exception):
@@ -207,6 +219,21 @@ class GraphCase(base.CaseBase):
                 return self.fail('C13:later-call-raises', lambda: repr(e))
             if (self.native or not self.traced) and again != text:
                 return self.fail('C13:second-print-differs', lambda: describe() + '\nsecond:\n' + again)
+            if self.params.get('reclass'):
+                # the same objects (same ids) are given another class: the markers
+                # must name the new type
+                for o in nodes:
+                    if type(o) is UList:
+                        o.__class__ = VList
+                try:
+                    third = PKG.pformat(root)
+                except Exception as e:
+                    return self.fail('C13:later-call-raises', lambda: repr(e))
+                want3, _ = reference(self.kinds, adj, nodes)
+                got3 = [(t, int(i)) for t, i in MARKER.findall(third)]
+                if got3 != want3:
+                    return self.fail('C13:marker-names-stale-type',
+                                     lambda: describe() + '\nafter changing the class:\n%s\nexpected markers %r' % (third, want3))
             if MARKER.findall(again) != MARKER.findall(text):
                 return self.fail('C13:second-print-differs', lambda: describe() + '\nsecond:\n' + again)
             if other != self.unrelated_baseline:
@@ -272,6 +299,10 @@ def cases(tier, seed):
     for ks in ([('list', 'dict'), ('tuple', 'list')] if tier == 'quick' else list(itertools.product(K, repeat=2))):
         out.append({'name': 'n2:%s:after-aborted-print' % '-'.join(ks), 'family': 'graph',
                     'params': {'kinds': list(ks), 'abort_first': True, 'traced': False}, 'budget': 120.0})
+    # user list subclasses whose class is changed between two prints (same ids)
+    for ks in [('ulist',), ('ulist', 'dict'), ('ulist', 'ulist')]:
+        out.append({'name': 'n%d:%s:reclass' % (len(ks), '-'.join(ks)), 'family': 'graph',
+                    'params': {'kinds': list(ks), 'reclass': True, 'traced': False}, 'budget': 120.0})
     # cycles under a finite depth limit (list / dict nodes)
     for ks in [('list', 'dict'), ('dict', 'list', 'list')]:
         for d in ((3,) if tier == 'quick' else (1, 2, 3, 5)):
